@@ -101,8 +101,8 @@ def plan_record(tid, out_bytes, align, summary_csv, stdout, accel):
 def main(tier):
     run = Run("C12", tier)
     sd = seed()
-    n = 50 if tier == "quick" else 1000
-    jobs = corpus.all_singles(sd) + corpus.draw(n, sd, families=["mixed", "mixed", "branch", "chain", "lut", "wide", "single"])
+    n = 72 if tier == "quick" else 1200
+    jobs = corpus.all_singles(sd) + corpus.draw(n, sd, families=["mixed", "mixed", "branch", "chain", "lut", "wide", "single", "inplace", "inplace", "widen", "diamonds", "resize"])
     import random
     rng = random.Random(sd)
     for j in jobs:       # alignment is this property's own dimension: sweep it on every job
